@@ -189,7 +189,7 @@ func unfoldAlias(c *simkit.Choices, x *simkit.Ctx) *simkit.Violation {
 	if c.N(5) == 0 {
 		uv = 1 + c.N(model.NumUnfolderVariants-1)
 		if c.Bool() {
-			te = model.TypeByName([]string{"Scored", "map[string]Score", "Labeled", "Label", "Labeled", "Prims", "Lists"}[c.N(7)])
+			te = model.TypeByName([]string{"Scored", "map[string]Score", "Labeled", "Label", "Labeled", "Prims", "Lists", "[]*Label", "map[string]*Label"}[c.N(9)])
 			sc.Target = te.Name
 		}
 	}
